@@ -1,14 +1,303 @@
-import JF.Model.Potential.Derivative
-import JF.Model.Potential.DerivativeEwald
-import Mathlib.Analysis.SpecialFunctions.Pow.Deriv
+import JF.Lemmas.DerivReal
 /-!
 # C03 — Reported event rates are the directional derivative of the model energy
+
+Exact reading (`DOps.real`, Mathlib's real functions, `erfc` a parameter) of the SAME definitions that the
+driver runs in binary64 against the real classes and the compiled C.
+
+Sign convention throughout: separation = target − active, the ACTIVE unit moves with velocity `v`, so the
+separation at time `t` is `s − t·v` (`V3.subSmul`), and the reported value is `d/dt U(s − t·v)` at `t = 0`.
 -/
 namespace JF.C03
-open JF JF.Deriv
+open JF JF.Deriv Real
 
-/-- direction `d` is handled by rotating component `d` to the front -/
+variable (e : ℝ → ℝ)
+
+/-! ## energies (written from the class docstrings) -/
+
+/-- `U = c_i c_j k / |r|^p` -/
+noncomputable def ipEnergy (power k cc : ℝ) (s : V3 ℝ) : ℝ := cc * k / (√(s.nsq)) ^ power
+
+/-- `U = c_i c_j k / |r|` (the bound of the merged-image Coulomb potential) -/
+noncomputable def boundEnergy (pp : ℝ) (s : V3 ℝ) : ℝ := pp / √(s.nsq)
+
+/-! ## direction `d` is handled by rotating component `d` to the front -/
+
 theorem perm_x {α : Type} (v : V3 α) (d : Nat) : (v.perm d).x = v.get d := by
   unfold V3.perm V3.get; split <;> rfl
+
+/-- the rotation is a permutation of the components: the squared norm is unchanged -/
+theorem perm_nsq (s : V3 ℝ) (d : ℕ) : (s.perm d).nsq = s.nsq := by
+  unfold V3.perm V3.nsq; split <;> ring
+
+/-! ## inverse power potential -/
+
+theorem ip_make_ok {power k : ℝ} (hk : k ≠ 0) (hp : 0 < power) :
+    IP.make (DOps.real e) power k = .ok ⟨power, k, power + 2⟩ := by
+  simp [IP.make, hk, hp]
+
+theorem ip_make_inv {power k : ℝ} {p : IP ℝ} (h : IP.make (DOps.real e) power k = .ok p) :
+    k ≠ 0 ∧ 0 < power ∧ p = ⟨power, k, power + 2⟩ := by
+  unfold IP.make at h
+  split_ifs at h with h1 h2
+  simp only [real_ofInt, Int.cast_zero, beq_iff_eq, Bool.not_eq_true', decide_eq_false_iff_not, not_not] at h1 h2
+  exact ⟨h1, h2, by simpa using h.symm⟩
+
+/-- value of `InversePowerPotential.standard_velocity_derivative` away from the origin -/
+theorem ip_svd_eq (p : IP ℝ) (d : ℕ) (s : V3 ℝ) (c1 c2 : ℝ) (hs : s.nsq ≠ 0) :
+    p.svd (DOps.real e) d s c1 c2
+      = .ok (p.power * s.get d / (√(s.nsq)) ^ p.powerPlusTwo * p.prefactor * c1 * c2) := by
+  have hn : 0 < √(s.nsq) := Real.sqrt_pos.mpr (lt_of_le_of_ne s.nsq_nonneg (Ne.symm hs))
+  have hden : (√(s.nsq)) ^ p.powerPlusTwo ≠ 0 := (Real.rpow_pos_of_pos hn _).ne'
+  simp [IP.svd, norm_real, pyPow_real, pyDiv_real e _ _ hden, bind, Except.bind, pure, Except.pure]
+
+/-- at the origin the routine raises `ZeroDivisionError` (for a positive power) -/
+theorem ip_svd_origin (p : IP ℝ) (d : ℕ) (c1 c2 : ℝ) (hp : p.powerPlusTwo ≠ 0) :
+    p.svd (DOps.real e) d ⟨0, 0, 0⟩ c1 c2 = .error "ZeroDivisionError" := by
+  simp [IP.svd, norm_real, pyPow_real, V3.nsq, Real.zero_rpow hp, pyDiv_real_zero, bind, Except.bind]
+
+/-- **C03 for the inverse power potential, space derivative**: the routine's value is the derivative of
+`U(s − x e_d)` at `x = 0`. -/
+theorem ip_svd_hasDerivAt (power k : ℝ) (d : ℕ) (s : V3 ℝ) (c1 c2 : ℝ) (hs : s.nsq ≠ 0) :
+    HasDerivAt (fun x => ipEnergy power k (c1 * c2) (s.moved d x))
+      (power * s.get d / (√(s.nsq)) ^ (power + 2) * k * c1 * c2) 0 := by
+  have hn : 0 < √(s.nsq) := Real.sqrt_pos.mpr (lt_of_le_of_ne s.nsq_nonneg (Ne.symm hs))
+  have h1 := norm_moved_hasDerivAt s d hs
+  have h2 := h1.rpow_const (p := power) (Or.inl (by simpa using hn.ne'))
+  have hP : 0 < (√(s.nsq)) ^ power := Real.rpow_pos_of_pos hn _
+  have h3 := (h2.inv (by simpa using hP.ne')).const_mul (c1 * c2 * k)
+  have e1 : (√(s.nsq)) ^ (power + 2) = (√(s.nsq)) ^ power * (√(s.nsq)) ^ 2 := by
+    rw [Real.rpow_add hn]; norm_cast
+  have e2 : (√(s.nsq)) ^ (power - 1) = (√(s.nsq)) ^ power / √(s.nsq) := Real.rpow_sub_one hn.ne' _
+  unfold ipEnergy
+  refine (h3.congr_deriv ?_).congr_of_eventuallyEq (Filter.Eventually.of_forall fun x => ?_)
+  · simp only [moved_zero]
+    rw [e1, e2]
+    field_simp
+  · simp only [div_eq_mul_inv, Pi.inv_apply]
+
+/-- **C03 for the inverse power potential, full statement**: for every constructible potential, every
+standard velocity, every separation but the origin and every charge pair the class returns the time
+derivative of the pair energy along the motion of the active unit (linear in speed and charge product). -/
+theorem ip_derivative_correct {power k : ℝ} {p : IP ℝ} (hp : IP.make (DOps.real e) power k = .ok p)
+    {v : V3 ℝ} {d : ℕ} {sp : ℝ} (hv : StdVel v d sp) (s : V3 ℝ) (c1 c2 : ℝ) (hs : s.nsq ≠ 0) :
+    ∃ val, p.derivative (DOps.real e) v s c1 c2 = .ok val ∧
+      val = power * s.get d / (√(s.nsq)) ^ (power + 2) * k * c1 * c2 * sp ∧
+      HasDerivAt (fun t => ipEnergy power k (c1 * c2) (s.subSmul v t)) val 0 := by
+  obtain ⟨_, _, rfl⟩ := ip_make_inv e hp
+  have h := timeDerivative_hasDerivAt e (U := ipEnergy power k (c1 * c2))
+    (svd := fun d => IP.svd (DOps.real e) ⟨power, k, power + 2⟩ d s c1 c2) hv
+    (ip_svd_eq e ⟨power, k, power + 2⟩ d s c1 c2 hs) (ip_svd_hasDerivAt power k d s c1 c2 hs)
+  exact ⟨_, h.1, rfl, h.2⟩
+
+/-- non-vacuity: the Coulomb case `p = 1`, `k = 1`, unit speed along `y`, separation `(1, 2, 2)` (`|s| = 3`) -/
+example : ∃ p, IP.make (DOps.real e) 1 1 = .ok p ∧ StdVel ⟨0, 1, 0⟩ 1 1 ∧ (⟨1, 2, 2⟩ : V3 ℝ).nsq ≠ 0 :=
+  ⟨_, ip_make_ok e one_ne_zero one_pos, ⟨one_pos, Or.inr (Or.inl ⟨rfl, rfl⟩)⟩, by norm_num [V3.nsq]⟩
+
+/-! ## the 1/r bound (C routine `derivative` of `inverse_power_coulomb_bounding_potential.c`) -/
+
+theorem rpow_three_halves {q : ℝ} (hq : 0 ≤ q) : q ^ ((3 : ℝ) / 2) = √q ^ 3 := by
+  rw [Real.sqrt_eq_rpow, ← Real.rpow_natCast, ← Real.rpow_mul hq]; norm_num
+
+/-- value of the wrapper: the C routine on the rotated separation -/
+theorem bound_svd_eq (p : Bound ℝ) (d : ℕ) (s : V3 ℝ) (c1 c2 : ℝ) :
+    p.svd (DOps.real e) d s c1 c2 = p.prefactor * c1 * c2 * s.get d / √(s.nsq) ^ 3 := by
+  have h := perm_nsq s d
+  have hx := perm_x s d
+  simp only [V3.nsq] at h
+  simp only [Bound.svd, boundC, real_pow, real_ofInt]
+  rw [h, hx, show ((3 : ℤ) : ℝ) / ((2 : ℤ) : ℝ) = (3 : ℝ) / 2 by norm_num]
+  have := rpow_three_halves s.nsq_nonneg
+  simp only [V3.nsq] at this
+  rw [this]; rfl
+
+theorem bound_svd_hasDerivAt (pp : ℝ) (d : ℕ) (s : V3 ℝ) (hs : s.nsq ≠ 0) :
+    HasDerivAt (fun x => boundEnergy pp (s.moved d x)) (pp * s.get d / √(s.nsq) ^ 3) 0 := by
+  have hn : 0 < √(s.nsq) := Real.sqrt_pos.mpr (lt_of_le_of_ne s.nsq_nonneg (Ne.symm hs))
+  have h3 := ((norm_moved_hasDerivAt s d hs).inv (by simpa using hn.ne')).const_mul pp
+  unfold boundEnergy
+  refine (h3.congr_deriv ?_).congr_of_eventuallyEq (Filter.Eventually.of_forall fun x => ?_)
+  · simp only [moved_zero]; field_simp
+  · simp only [div_eq_mul_inv, Pi.inv_apply]
+
+/-- **C03 for the 1/r bound**: the class returns the time derivative of `k c₁c₂/|s − t v|`. -/
+theorem bound_derivative_correct (p : Bound ℝ) {v : V3 ℝ} {d : ℕ} {sp : ℝ} (hv : StdVel v d sp)
+    (s : V3 ℝ) (c1 c2 : ℝ) (hs : s.nsq ≠ 0) :
+    ∃ val, p.derivative (DOps.real e) v s c1 c2 = .ok val ∧
+      val = p.prefactor * c1 * c2 * s.get d / √(s.nsq) ^ 3 * sp ∧
+      HasDerivAt (fun t => boundEnergy (p.prefactor * c1 * c2) (s.subSmul v t)) val 0 := by
+  have h := timeDerivative_hasDerivAt e (U := boundEnergy (p.prefactor * c1 * c2))
+    (svd := fun d => .ok (p.svd (DOps.real e) d s c1 c2)) hv
+    (by rw [bound_svd_eq]) (bound_svd_hasDerivAt (p.prefactor * c1 * c2) d s hs)
+  exact ⟨_, h.1, rfl, h.2⟩
+
+example : StdVel ⟨0, 0, 2⟩ 2 2 ∧ (⟨1, 2, 2⟩ : V3 ℝ).nsq ≠ 0 :=
+  ⟨⟨two_pos, Or.inr (Or.inr ⟨rfl, rfl⟩)⟩, by norm_num [V3.nsq]⟩
+
+/-! ## Lennard-Jones -/
+
+/-- `U = k ((σ/|r|)^12 − (σ/|r|)^6)` -/
+noncomputable def ljEnergy (k cl : ℝ) (s : V3 ℝ) : ℝ := k * ((cl / √(s.nsq)) ^ 12 - (cl / √(s.nsq)) ^ 6)
+
+theorem mexicanHatInit_real (k r : ℝ) :
+    mexicanHatInit (DOps.real e) k r = if 0 < k ∧ 0 < r then .ok () else .error "ConfigurationError" := by
+  unfold mexicanHatInit
+  by_cases hk0 : k = 0
+  · simp [hk0]
+  · by_cases hk : 0 < k <;> by_cases hr : 0 < r <;> simp [hk0, hk, hr]
+
+theorem lj_make_inv {k cl : ℝ} {p : LJ ℝ} (h : LJ.make (DOps.real e) k cl = .ok p) :
+    0 < k ∧ 0 < cl ∧ p = ⟨⟨6, -k * cl ^ 6, 6 + 2⟩, ⟨12, k * cl ^ 12, 12 + 2⟩⟩ := by
+  have h2 : (0 : ℝ) < (2 : ℝ) ^ ((1 : ℝ) / 6) := Real.rpow_pos_of_pos two_pos _
+  unfold LJ.make at h
+  rw [mexicanHatInit_real] at h
+  split_ifs at h with hc
+  · obtain ⟨hk, hm⟩ := hc
+    simp only [real_ofInt, real_pow, Int.cast_ofNat, Int.cast_one] at hm
+    have hc : 0 < cl := pos_of_mul_pos_left hm h2.le
+    have h6 : cl ^ 6 ≠ 0 := (pow_pos hc 6).ne'
+    have h12 : cl ^ 12 ≠ 0 := (pow_pos hc 12).ne'
+    have e6 : cl ^ (6 : ℝ) = cl ^ 6 := by exact_mod_cast Real.rpow_natCast cl 6
+    have e12 : cl ^ (12 : ℝ) = cl ^ 12 := by exact_mod_cast Real.rpow_natCast cl 12
+    simp [IP.make, pyPow_real, bind, Except.bind, hk.ne', e6, e12, h6, h12, pure, Except.pure] at h
+    exact ⟨hk, hc, by rw [← h, neg_mul]⟩
+  · simp [bind, Except.bind] at h
+
+theorem lj_energy_split (k cl : ℝ) (s : V3 ℝ) (hs : s.nsq ≠ 0) :
+    ljEnergy k cl s = ipEnergy 6 (-k * cl ^ 6) (1 * 1) s + ipEnergy 12 (k * cl ^ 12) (1 * 1) s := by
+  have hn : 0 < √(s.nsq) := Real.sqrt_pos.mpr (lt_of_le_of_ne s.nsq_nonneg (Ne.symm hs))
+  have e6 : √(s.nsq) ^ (6 : ℝ) = √(s.nsq) ^ 6 := by exact_mod_cast Real.rpow_natCast _ 6
+  have e12 : √(s.nsq) ^ (12 : ℝ) = √(s.nsq) ^ 12 := by exact_mod_cast Real.rpow_natCast _ 12
+  unfold ljEnergy ipEnergy
+  rw [e6, e12]
+  field_simp
+  ring
+
+/-- **C03 for the Lennard-Jones potential** -/
+theorem lj_derivative_correct {k cl : ℝ} {p : LJ ℝ} (hp : LJ.make (DOps.real e) k cl = .ok p)
+    {v : V3 ℝ} {d : ℕ} {sp : ℝ} (hv : StdVel v d sp) (s : V3 ℝ) (hs : s.nsq ≠ 0) :
+    ∃ val, p.derivative (DOps.real e) v s = .ok val ∧
+      val = (6 * s.get d / √(s.nsq) ^ ((6 : ℝ) + 2) * (-k * cl ^ 6) * 1 * 1
+              + 12 * s.get d / √(s.nsq) ^ ((12 : ℝ) + 2) * (k * cl ^ 12) * 1 * 1) * sp ∧
+      HasDerivAt (fun t => ljEnergy k cl (s.subSmul v t)) val 0 := by
+  obtain ⟨_, _, rfl⟩ := lj_make_inv e hp
+  have hsvd : LJ.svd (DOps.real e) ⟨⟨6, -k * cl ^ 6, 6 + 2⟩, ⟨12, k * cl ^ 12, 12 + 2⟩⟩ d s
+      = .ok (6 * s.get d / √(s.nsq) ^ ((6 : ℝ) + 2) * (-k * cl ^ 6) * 1 * 1
+              + 12 * s.get d / √(s.nsq) ^ ((12 : ℝ) + 2) * (k * cl ^ 12) * 1 * 1) := by
+    simp only [LJ.svd, ip_svd_eq e _ d s _ _ hs, bind, Except.bind, pure, Except.pure, real_ofInt, Int.cast_one]
+  have hd := (ip_svd_hasDerivAt 6 (-k * cl ^ 6) d s 1 1 hs).add (ip_svd_hasDerivAt 12 (k * cl ^ 12) d s 1 1 hs)
+  have hs' : ∀ᶠ x in nhds (0 : ℝ), (s.moved d x).nsq ≠ 0 := by
+    have hc : ContinuousAt (fun x => (s.moved d x).nsq) 0 := (nsq_moved_hasDerivAt s d).continuousAt
+    exact hc.eventually_ne (by simpa using hs)
+  have hU : HasDerivAt (fun x => ljEnergy k cl (s.moved d x)) _ 0 :=
+    hd.congr_of_eventuallyEq (hs'.mono fun x hx => lj_energy_split k cl _ hx)
+  have h := timeDerivative_hasDerivAt e (U := ljEnergy k cl) (svd := fun d => LJ.svd (DOps.real e) _ d s) hv hsvd hU
+  exact ⟨_, h.1, rfl, h.2⟩
+
+example : ∃ p, LJ.make (DOps.real e) 1 1 = .ok p := by
+  have h2 : (0 : ℝ) < (2 : ℝ) ^ ((1 : ℝ) / 6) := Real.rpow_pos_of_pos two_pos _
+  refine ⟨⟨⟨6, -1, 6 + 2⟩, ⟨12, 1, 12 + 2⟩⟩, ?_⟩
+  unfold LJ.make
+  rw [mexicanHatInit_real, if_pos ⟨one_pos, by simpa using h2⟩]
+  simp [IP.make, pyPow_real, bind, Except.bind, pure, Except.pure]
+
+/-! ## displaced even power -/
+
+/-- `U = k (|r| − r₀)^p` -/
+noncomputable def depEnergy (k r0 : ℝ) (power : ℤ) (s : V3 ℝ) : ℝ := k * (√(s.nsq) - r0) ^ power
+
+theorem dep_make_inv {k r0 : ℝ} {power : ℤ} {p : DEP ℝ} (h : DEP.make (DOps.real e) r0 power k = .ok p) :
+    0 < k ∧ 0 < r0 ∧ 0 < power ∧ power % 2 = 0 ∧ p = ⟨r0, power, k⟩ := by
+  unfold DEP.make at h
+  rw [mexicanHatInit_real] at h
+  by_cases hc : 0 < k ∧ 0 < r0
+  · rw [if_pos hc] at h
+    simp only [bind, Except.bind] at h
+    split_ifs at h with hq
+    simp only [Bool.not_eq_true, Bool.not_eq_false', Bool.and_eq_true, decide_eq_true_eq, beq_iff_eq] at hq
+    cases h
+    exact ⟨hc.1, hc.2, hq.1, hq.2, rfl⟩
+  · rw [if_neg hc] at h
+    simp [bind, Except.bind] at h
+
+theorem dep_svd_eq (p : DEP ℝ) (d : ℕ) (s : V3 ℝ) (hs : s.nsq ≠ 0) :
+    p.svd (DOps.real e) d s
+      = .ok ((-p.power : ℤ) * p.prefactor * (√(s.nsq) - p.eqSep) ^ (p.power - 1) * s.get d / √(s.nsq)) := by
+  have hn : √(s.nsq) ≠ 0 := (Real.sqrt_pos.mpr (lt_of_le_of_ne s.nsq_nonneg (Ne.symm hs))).ne'
+  simp only [DEP.svd, norm_real, pyPow_real, pyDiv_real e _ _ hn, bind, Except.bind, real_ofInt,
+    Real.rpow_intCast]
+
+theorem dep_svd_hasDerivAt (k r0 : ℝ) (power : ℤ) (hp : 0 < power) (d : ℕ) (s : V3 ℝ) (hs : s.nsq ≠ 0) :
+    HasDerivAt (fun x => depEnergy k r0 power (s.moved d x))
+      ((-power : ℤ) * k * (√(s.nsq) - r0) ^ (power - 1) * s.get d / √(s.nsq)) 0 := by
+  have hn : √(s.nsq) ≠ 0 := (Real.sqrt_pos.mpr (lt_of_le_of_ne s.nsq_nonneg (Ne.symm hs))).ne'
+  have h1 := (norm_moved_hasDerivAt s d hs).sub_const r0
+  have hz : HasDerivAt (fun y : ℝ => y ^ power) (power * (√(s.nsq) - r0) ^ (power - 1))
+      (√((s.moved d 0).nsq) - r0) := by
+    simpa using hasDerivAt_zpow power (√(s.nsq) - r0) (Or.inr hp.le)
+  have h3 := (hz.comp (0 : ℝ) h1).const_mul k
+  unfold depEnergy
+  refine (h3.congr_deriv ?_).congr_of_eventuallyEq (Filter.Eventually.of_forall fun x => ?_)
+  · push_cast; field_simp
+  · rfl
+
+/-- **C03 for the displaced even power potential** -/
+theorem dep_derivative_correct {k r0 : ℝ} {power : ℤ} {p : DEP ℝ}
+    (hp : DEP.make (DOps.real e) r0 power k = .ok p)
+    {v : V3 ℝ} {d : ℕ} {sp : ℝ} (hv : StdVel v d sp) (s : V3 ℝ) (hs : s.nsq ≠ 0) :
+    ∃ val, p.derivative (DOps.real e) v s = .ok val ∧
+      val = (-power : ℤ) * k * (√(s.nsq) - r0) ^ (power - 1) * s.get d / √(s.nsq) * sp ∧
+      HasDerivAt (fun t => depEnergy k r0 power (s.subSmul v t)) val 0 := by
+  obtain ⟨_, _, hpos, _, rfl⟩ := dep_make_inv e hp
+  have h := timeDerivative_hasDerivAt e (U := depEnergy k r0 power)
+    (svd := fun d => DEP.svd (DOps.real e) ⟨r0, power, k⟩ d s) hv
+    (dep_svd_eq e ⟨r0, power, k⟩ d s hs) (dep_svd_hasDerivAt k r0 power hpos d s hs)
+  exact ⟨_, h.1, rfl, h.2⟩
+
+example : ∃ p, DEP.make (DOps.real e) 1 2 1 = .ok p := by
+  refine ⟨⟨1, 2, 1⟩, ?_⟩
+  unfold DEP.make
+  rw [mexicanHatInit_real, if_pos ⟨one_pos, one_pos⟩]
+  simp [bind, Except.bind]
+
+/-! ## bending: translation invariance -/
+
+/-- **the three per-unit derivatives of the bending potential sum to zero**, for every input on which the
+routine returns (immediate from the construction of the middle entry, stated because the property names it) -/
+theorem bend_svd_sum_zero (p : Bend ℝ) (d : ℕ) (s1 s2 : V3 ℝ) (a b c : ℝ)
+    (h : p.svd (DOps.real e) d s1 s2 = .ok (a, b, c)) : a + b + c = 0 := by
+  unfold Bend.svd at h
+  simp only [bind, Except.bind, pure, Except.pure] at h
+  repeat' split at h
+  all_goals (cases h <;> ring)
+
+theorem bend_derivative_sum_zero (p : Bend ℝ) (v s1 s2 : V3 ℝ) (a b c : ℝ)
+    (h : p.derivative (DOps.real e) v s1 s2 = .ok (a, b, c)) : a + b + c = 0 := by
+  unfold Bend.derivative at h
+  simp only [bind, Except.bind, pure, Except.pure] at h
+  split at h
+  · cases h
+  · split at h
+    · cases h
+    · rename_i r hr
+      obtain ⟨a', b', c'⟩ := r
+      simp only [Except.ok.injEq, Prod.mk.injEq] at h
+      obtain ⟨rfl, rfl, rfl⟩ := h
+      have := bend_svd_sum_zero e p _ s1 s2 a' b' c' hr
+      rw [← add_mul, ← add_mul, this, zero_mul]
+
+/-- a velocity that is not standard is rejected, whatever the rest of the input -/
+theorem derivative_rejects_nonstandard (v : V3 ℝ) (svd : ℕ → Res ℝ)
+    (hv : ∀ d sp, ¬ StdVel v d sp) : timeDerivative (DOps.real e) v svd = .error "AssertionError" := by
+  unfold timeDerivative
+  cases h : analyseVelocity (DOps.real e) v with
+  | error m =>
+    have : m = "AssertionError" := by
+      unfold analyseVelocity at h
+      split at h
+      · split_ifs at h; simpa using h.symm
+      · simpa using h.symm
+    simp [this, bind, Except.bind]
+  | ok r => exact absurd (stdVel_of_analyseVelocity e (d := r.1) (sp := r.2) h) (hv _ _)
 
 end JF.C03
